@@ -85,6 +85,8 @@ type FnExec struct {
 	allocName string
 	mode     string // "full" or "safety"
 	mutSlices map[ssa.Value]Val
+	nosafetyAssumed int
+	localNames  map[string]bool
 	modCache    map[string][]string
 	modCacheAll bool
 	modCacheCon *Contract
@@ -95,7 +97,7 @@ func (e *Engine) newFnExec(fn *ssa.Function, con *Contract) *FnExec {
 	fx := &FnExec{e: e, fn: fn, c: newCtx(), con: con, vals: map[ssa.Value]Val{}, reach: map[*ssa.BasicBlock]string{},
 		heapOut: map[*ssa.BasicBlock]Heap{}, heapIn: map[*ssa.BasicBlock]Heap{}, counters: map[string]int{}, loops: map[*ssa.BasicBlock]*loopInfo{},
 		names: map[string][]ssa.Value{}, epochCtr: &n, uncontracted: map[string]bool{}, usedContracts: map[string]bool{}, params: map[string]Val{},
-		mutSlices: map[ssa.Value]Val{}}
+		mutSlices: map[ssa.Value]Val{}, localNames: map[string]bool{}}
 	fx.entry = Heap{vers: map[string]string{}, epoch: 0}
 	fx.key = keyOfFunction(fn)
 	return fx
@@ -140,8 +142,33 @@ func (fx *FnExec) havocAll(h *Heap) {
 	if fx.errflow {
 		keep["$fail"] = fx.heapVar(h, "$fail", "Bool")
 	}
+	for n, v := range h.vers {
+		if strings.HasPrefix(n, "L.") {
+			keep[n] = v
+		}
+	}
+	for n := range fx.localNames {
+		if _, ok := keep[n]; !ok {
+			keep[n] = fx.heapVar(h, n, fx.e.heapSort[n])
+		}
+	}
+	oldMono := map[string]string{}
+	for _, n := range fx.e.cs.Monotone {
+		if srt, ok := fx.e.heapSort[n]; ok {
+			oldMono[n] = fx.heapVar(h, n, srt)
+		} else {
+			fx.e.heapSort[n] = arraySort("Int", "Int")
+			oldMono[n] = fx.heapVar(h, n, arraySort("Int", "Int"))
+		}
+	}
 	h.vers = keep
 	h.epoch = *fx.epochCtr
+	for _, n := range fx.e.cs.Monotone {
+		nv := fx.heapVar(h, n, fx.e.heapSort[n])
+		fx.c.nfresh++
+		q := fmt.Sprintf("q!m!%d", fx.c.nfresh)
+		fx.c.assert(fmt.Sprintf("(forall ((%s Int)) (! (=> (not (= (select %s %s) 0)) (not (= (select %s %s) 0))) :pattern ((select %s %s))))", q, oldMono[n], q, nv, q, nv, q))
+	}
 	// the allocation counter only grows
 	na := fx.heapVar(h, "$alloc", "Int")
 	fx.assume(sLe(alloc, na))
@@ -166,7 +193,15 @@ func (fx *FnExec) assume(t string) {
 	fx.c.assert(sImp(fx.curReach, t))
 }
 
+var safetyClasses = map[string]bool{"nil": true, "idx": true, "assert": true, "div": true, "unreachable": true, "makeslice": true}
+
 func (fx *FnExec) oblige(class, label, goal, text string, p token.Pos) *Obligation {
+	if safetyClasses[class] && fx.con != nil && hasFlag(fx.con, "nosafety") {
+		// panic-freedom of this function is not claimed here: assumed
+		fx.nosafetyAssumed++
+		fx.assume(goal)
+		return &Obligation{}
+	}
 	name := class
 	if label != "" {
 		name += "#" + label
@@ -298,7 +333,7 @@ func (fx *FnExec) wellTyped(v Val, h *Heap) string {
 		}
 	case *types.Interface:
 		facts = append(facts, sLe("0", v.L[0]))
-		if fx.e.isRepoType(v.T) {
+		if fx.e.closedWorld(v.T) {
 			ids := fx.e.implementors(v.T)
 			alts := []string{sEq(v.L[0], "0")}
 			for _, id := range ids {
@@ -562,11 +597,53 @@ func globalName(g *ssa.Global, leafPath string) string {
 	return n
 }
 
+func localLeafName(base, path string) string {
+	if path == "" {
+		return base
+	}
+	return base + "." + path
+}
+
+// nonEscaping: the address of the alloc is only used for direct loads, stores and field selection
+func nonEscaping(v ssa.Value, depth int) bool {
+	refs := v.Referrers()
+	if refs == nil || depth > 6 {
+		return false
+	}
+	for _, r := range *refs {
+		switch x := r.(type) {
+		case *ssa.Store:
+			if x.Val == v {
+				return false
+			}
+		case *ssa.UnOp:
+			if x.Op != token.MUL {
+				return false
+			}
+		case *ssa.DebugRef:
+		case *ssa.FieldAddr:
+			if !nonEscaping(x, depth+1) {
+				return false
+			}
+		default:
+			return false
+		}
+	}
+	return true
+}
+
 // load through a pointer value
 func (fx *FnExec) load(h *Heap, p Val) Val {
 	et := elemOf(p.T)
 	if p.Loc != nil {
 		switch p.Loc.Kind {
+		case LLocal:
+			t := p.Loc.LocalT
+			out := Val{T: t}
+			for _, l := range fx.e.leaves(t) {
+				out.L = append(out.L, fx.heapVar(h, localLeafName(p.Loc.Local, l.Path), l.Sort))
+			}
+			return out
 		case LField:
 			return fx.loadField(h, p.Loc.Base, p.Loc.Owner, p.Loc.Field)
 		case LGlobal:
@@ -593,6 +670,13 @@ func (fx *FnExec) store(h *Heap, p Val, v Val) {
 	et := elemOf(p.T)
 	if p.Loc != nil {
 		switch p.Loc.Kind {
+		case LLocal:
+			for i, l := range fx.e.leaves(p.Loc.LocalT) {
+				if i < len(v.L) {
+					fx.heapSet(h, localLeafName(p.Loc.Local, l.Path), l.Sort, v.L[i])
+				}
+			}
+			return
 		case LField:
 			fx.storeField(h, p.Loc.Base, p.Loc.Owner, p.Loc.Field, v)
 			return
@@ -931,6 +1015,24 @@ func (fx *FnExec) typeMods(t types.Type, mods map[string]bool) {
 }
 
 func (fx *FnExec) addrMods(addr ssa.Value, mods map[string]bool) bool {
+	// stores into non-escaping locals
+	if base, path, t, ok := fx.localPath(addr); ok {
+		for _, l := range fx.e.leaves(t) {
+			p := path
+			if l.Path != "" {
+				if p != "" {
+					p += "."
+				}
+				p += l.Path
+			}
+			n := localLeafName(base, p)
+			mods[n] = true
+			if _, ok := fx.e.heapSort[n]; !ok {
+				fx.e.heapSort[n] = l.Sort
+			}
+		}
+		return false
+	}
 	switch a := addr.(type) {
 	case *ssa.FieldAddr:
 		owner := elemOf(a.X.Type())
@@ -1044,4 +1146,38 @@ func (fx *FnExec) callMods(cc *ssa.CallCommon, mods map[string]bool) bool {
 		}
 	}
 	return false
+}
+
+// localPath: is addr (an Alloc or a FieldAddr chain on one) inside a non-escaping local?
+func (fx *FnExec) localPath(addr ssa.Value) (base, path string, t types.Type, ok bool) {
+	switch a := addr.(type) {
+	case *ssa.Alloc:
+		if !nonEscaping(a, 0) {
+			return "", "", nil, false
+		}
+		return fx.localBase(a), "", elemOf(a.Type()), true
+	case *ssa.FieldAddr:
+		b, p, bt, ok := fx.localPath(a.X)
+		if !ok {
+			return "", "", nil, false
+		}
+		st, isS := fx.structOf(bt)
+		if !isS {
+			return "", "", nil, false
+		}
+		f := st.Field(a.Field)
+		if p != "" {
+			p += "."
+		}
+		return b, p + f.Name(), f.Type(), true
+	}
+	return "", "", nil, false
+}
+
+func (fx *FnExec) localBase(a *ssa.Alloc) string {
+	n := a.Comment
+	if n == "" {
+		n = "tmp"
+	}
+	return fmt.Sprintf("L.%s.%s", n, a.Name())
 }
